@@ -21,7 +21,7 @@ RULE = ("histories over a pool of 12 term recipes (leaves, lazy binary/unary/red
         "audits. A case is one history; non-trivial when it contains >=2 constructions of one key or a drop+gc+reconstruct; distinct by the action sequence")
 ASSUMPTIONS = ["hashable constructor arguments are equal when ==; arrays are equal when identical", "CPython reference counting + gc.collect() reclaims unreachable terms"]
 MIN_NONTRIVIAL = {"quick": 1500, "thorough": 15000}
-REQUIRED_COUNTERS = ["identity-checks", "distinctness-checks", "weakref-dead-checks", "intern-table-audits", "pickle-checks", "stale-field-checks"]
+REQUIRED_COUNTERS = ["identity-checks", "distinctness-checks", "weakref-dead-checks", "intern-table-audits", "pickle-checks", "stale-field-checks", "used-op-weak-checks"]
 
 INTERPS = ("reflect", "lazy", "eager")
 
@@ -32,7 +32,7 @@ class World:
         self.rng = rng
         self.arrays = {}
         self.version = {}
-        for k, shape in (("A0", (2,)), ("A1", (2, 3)), ("A2", (2,)), ("A3", ()), ("A4", (2,))):
+        for k, shape in (("A0", (2,)), ("A1", (2, 3)), ("A2", (2,)), ("A3", ()), ("A4", (2,)), ("A5", (2,)), ("A6", (2, 3)), ("A7", (2,))):
             self.realloc(k, shape)
         self.handles = {}      # handle id -> [obj or None, key, weakref]
         self.next = 0
@@ -43,6 +43,12 @@ class World:
         shape = self.arrays[k].shape if shape is None else shape
         if k == "A4":
             self.arrays[k] = np.array(self.rng.integers(0, 2, size=shape))
+        elif k == "A5":  # a column of a matrix: a non-contiguous view
+            self.arrays[k] = np.array(np.round(self.rng.uniform(-1, 1, size=shape + (3,)), 2))[:, 1]
+        elif k == "A6":  # a transposed matrix: Fortran-ordered view
+            self.arrays[k] = np.array(np.round(self.rng.uniform(-1, 1, size=shape[::-1]), 2)).T
+        elif k == "A7":  # a strided view
+            self.arrays[k] = np.array(np.round(self.rng.uniform(-1, 1, size=(2 * shape[0],)), 2))[::2]
         else:
             self.arrays[k] = np.array(np.round(self.rng.uniform(-1, 1, size=shape), 2))  # a real ndarray even for shape ()
         self.version[k] = self.version.get(k, 0) + 1
@@ -73,6 +79,10 @@ class World:
             "tensor-A0-j": (lambda: t0("j"), ("A0",), INTERPS),
             "tensor-A1": (lambda: Tensor(A["A1"], OrderedDict(a=Bint[2], b=Bint[3])), ("A1",), INTERPS),
             "tensor-A3": (lambda: Tensor(A["A3"]), ("A3",), INTERPS),
+            "tensor-A5-column-view": (lambda: Tensor(A["A5"], OrderedDict(i=Bint[2])), ("A5",), INTERPS),
+            "tensor-A6-transposed-view": (lambda: Tensor(A["A6"], OrderedDict(a=Bint[2], b=Bint[3])), ("A6",), INTERPS),
+            "tensor-A7-strided-view": (lambda: Tensor(A["A7"], OrderedDict(i=Bint[2])), ("A7",), INTERPS),
+            "binary-A5-view": (lambda: T.Binary(ops.mul, Tensor(A["A5"], OrderedDict(jb=Bint[2])), x()), ("A5",), ("reflect", "lazy")),
             "binary": (lambda: T.Binary(ops.mul, t0("jb"), x()), ("A0",), ("reflect", "lazy")),
             "unary": (lambda: T.Unary(ops.exp, x()), (), ("reflect", "lazy")),
             "reduce": (lambda: T.Reduce(ops.add, T.Binary(ops.mul, Tensor(A["A2"], OrderedDict(k=Bint[2])), x()), frozenset([Variable("k", Bint[2])])), ("A2",), ("reflect", "lazy")),
@@ -315,6 +325,80 @@ def domain_and_op_checks(res, rng, errors):
         errors.append(("weak:op-cache", "a dropped parametrised op is still interned after gc"))
 
 
+def used_op_checks(res, rng, errors):
+    """parametrised ops and domains stay weakly held after they have been USED: type inference (find_domain), lazy terms built from
+    them, eager evaluation on tensors and on raw arrays; the intern tables and any rule-level caches must not keep them alive"""
+    from collections import OrderedDict
+
+    import funsor.terms as T
+    from funsor import ops
+    from funsor.domains import ArrayType, Bint, Reals, find_domain
+    from funsor.interpretations import eager, lazy
+    from funsor.tensor import Tensor
+
+    n = int(rng.integers(5, 9))
+    m = int(rng.integers(14, 40))          # sizes no other part of the harness uses, so nothing else holds these domains
+    data = np.round(rng.uniform(-1, 1, size=(2, m, n)), 2)
+    start, stop, step = int(rng.integers(0, 3)), int(rng.integers(6, m)), int(rng.integers(1, 4))
+    makers = {
+        "GetsliceOp": lambda: ops.GetsliceOp((slice(start, stop, step),)),
+        "GetsliceOp-ellipsis": lambda: ops.GetsliceOp((Ellipsis, slice(0, n - 1, 2))),
+        "ReshapeOp": lambda: ops.ReshapeOp((n, m)),
+        "SumOp": lambda: ops.SumOp(-2, True),
+        "LogsumexpOp": lambda: ops.LogsumexpOp((0,), True),
+        "AmaxOp": lambda: ops.AmaxOp(1, False),
+        "MeanOp": lambda: ops.MeanOp(0, True),
+        "StdOp": lambda: ops.StdOp(0, 1, False),
+        "ArgmaxOp": lambda: ops.ArgmaxOp(-1, True),
+        "PermuteOp": lambda: ops.PermuteOp((1, 0)),
+        "ExpandOp": lambda: ops.ExpandOp((3, m, n)),
+        "UnsqueezeOp": lambda: ops.UnsqueezeOp(-2),
+        "SqueezeOp-after": None,
+    }
+    uses = ("find_domain", "lazy-term", "eager-tensor", "raw-array", "lazy-then-eager")
+    for name, mk in makers.items():
+        if mk is None:
+            continue
+        for use in uses:
+            i_ops = {c: len(c._instance_cache) for c in (type(mk()),)}
+            k0 = len(ArrayType._type_cache)
+            try:
+                op = mk()
+                dom = Reals[m, n]
+                if use == "find_domain":
+                    out = find_domain(op, dom)
+                    out2 = find_domain(op, dom)
+                elif use == "lazy-term":
+                    with lazy:
+                        out = op(T.Variable("v%d" % m, dom))
+                        out2 = out.output
+                elif use == "eager-tensor":
+                    with eager:
+                        out = op(Tensor(data, OrderedDict(b=Bint[2])))
+                        out2 = None
+                elif use == "raw-array":
+                    out = op(data[0])
+                    out2 = None
+                else:
+                    with lazy:
+                        out = op(T.Variable("v%d" % m, dom))
+                    with eager:
+                        out2 = out(**{"v%d" % m: Tensor(data, OrderedDict(b=Bint[2]))})
+            except Exception as e:
+                res.count("used-op-declined:%s:%s" % (name, type(e).__name__))
+                continue
+            wo, wd = weakref.ref(op), weakref.ref(dom)
+            del op, dom, out, out2
+            for _ in range(3):
+                gc.collect()
+            res.count("weakref-dead-checks", 2)
+            res.count("used-op-weak-checks")
+            if wo() is not None:
+                errors.append(("weak:used-op-still-alive", "a dropped %s instance is still alive after it was used for %s (a cache holds it strongly)" % (name.split("-")[0], use)))
+            if wd() is not None or len(ArrayType._type_cache) > k0:
+                errors.append(("weak:used-domain-still-alive", "a dropped domain is still alive after it was used with %s for %s" % (name.split("-")[0], use)))
+
+
 def plan(tier, seed):
     shards = []
     n = 8 if tier == "quick" else 24
@@ -326,7 +410,7 @@ def plan(tier, seed):
     return shards
 
 
-ALPHABET_RECIPES = ["tensor-A0-i", "binary", "binary-other-rhs", "reduce"]
+ALPHABET_RECIPES = ["tensor-A0-i", "binary", "binary-other-rhs", "reduce", "tensor-A5-column-view"]
 
 
 def actions_alphabet():
@@ -395,6 +479,7 @@ def run_shard(shard, res):
     baseline = table_sizes()
     errors = []
     domain_and_op_checks(res, rng, errors)
+    used_op_checks(res, rng, errors)
     for key, msg in errors:
         res.violation(key, msg)
     if shard["kind"] == "exhaustive":
@@ -425,7 +510,7 @@ def run_shard(shard, res):
             elif r < 0.92:
                 acts.append(("reinterpret-newest",))
             else:
-                acts.append(("realloc", "A%d" % int(rng.integers(0, 5))))
+                acts.append(("realloc", "A%d" % int(rng.integers(0, 8))))
         run_history(acts, res, rng, baseline, "random")
 
 
